@@ -5,7 +5,7 @@ Import ListNotations.
 
 Definition var := (nat * nat)%type.      (* [2]int{scope id, index} *)
 
-Inductive native := NF0 (f : fn0) | NF2 (o : binop) | NBreak | NIndex2 | NSlice3.   (* opcall [3]any{fn, argc, name} *)
+Inductive native := NF0 (f : fn0) | NF2 (o : binop) | NBreak | NIndex2 | NSlice3 | NF1 (f : fn1).   (* opcall [3]any{fn, argc, name} *)
 
 Inductive instr :=
 | Inop | Ipush (c : jv) | Ipop | Idup | Iconst (c : jv)
@@ -26,5 +26,6 @@ Record natives := {
   n_iter  : jv -> list jv + err0;              (* opiter on a value: elements / values by sorted key / iteratorError *)
   n_fn0   : fn0 -> jv -> jv + err0;            (* fn(x, []) *)
   n_fn2   : binop -> jv -> jv -> jv -> jv + err0;  (* fn(x, [l, r]) *)
-  n_slice : jv -> jv -> jv -> jv + err0            (* funcSlice(nil, v, end, start) *)
+  n_slice : jv -> jv -> jv -> jv + err0;           (* funcSlice(nil, v, end, start) *)
+  n_fn1   : fn1 -> jv -> jv -> jv + err0           (* fn(x, [a]) *)
 }.
